@@ -2,7 +2,7 @@
 as a dictionary of named conjuncts (one proof obligation each)."""
 import z3
 from pyvc.core import Val, VNone, VRef, is_VNone, is_VRef, ref, fresh, Int
-from specs import forest, cache as K
+from specs import forest, cache as K, symindex as X
 
 
 def WF(c, skip=()):
@@ -19,6 +19,8 @@ def WF(c, skip=()):
         "lit_wiring": z3.And(forest.wf_wiring(c), forest.wf_lit_owner(c)),
         "typed": forest.wf_typed(c),
         "inv_region": forest.inv_region(c),
+        "symbols_typed": X.symbols_typed(c),
+        "wf_symindex": X.wf_symindex(c),
         "wf_cache_I1": K.wf_cache_I1(c),
         "wf_cache_I2": K.wf_cache_I2(c),
     }
@@ -48,7 +50,7 @@ def attach_ok(c, ir_val, v, cls):
 _EFFECT = ["view", "parent", "other_collections", "other_parents", "is_wrapper", "is_child", "parent_kinds",
            "subtree_shape_unchanged", "ir_of_unchanged_outside", "ir_of_subtree", "is_node", "stored",
            "subtree_same_ir", "root_ir", "parents", "target_ir_fixed", "elements_are_blocks", "not_pending",
-           "events_add_all"]
+           "events_add_all", "field_name"]
 _CACHE = ["wf_cache_I1", "wf_cache_I2", "uuids_typed", "uuids_distinct_where_attached", "subtree_registered",
           "old_entries_kept_or_overwritten_by_subtree", "new_entries_are_subtree", "exactly_subtree_removed",
           "other_entries_unchanged", "rel_module", "rel_interval", "rel_block", "rel_section", "rel_symbol",
@@ -59,14 +61,17 @@ FOCUS = {
     "uuids_typed": _EFFECT + ["uuids_typed"],
     "rel_block": _EFFECT + ["rel_block"],
     "rel_interval": _EFFECT + ["rel_interval"],
-    "rel_section": _EFFECT + ["rel_section"],
-    "rel_symbol": _EFFECT + ["rel_symbol"],
-    "rel_proxy": _EFFECT + ["rel_proxy"],
+    "rel_section": _EFFECT + ["rel_section", "rel_symbol", "rel_proxy"],
+    "rel_symbol": _EFFECT + ["rel_section", "rel_symbol", "rel_proxy"],
+    "rel_proxy": _EFFECT + ["rel_section", "rel_symbol", "rel_proxy"],
     "rel_module": _EFFECT + ["rel_module"],
     "wrappers_owned": _EFFECT + ["wrappers_owned"],
     "lit_wiring": _EFFECT + ["lit_wiring"],
     "typed": _EFFECT + ["typed"],
     "inv_region": _EFFECT + _REGION,
+    "symbols_typed": _EFFECT + ["symbols_typed"],
+    "wf_symindex": _EFFECT + ["wf_symindex", "symbols_typed", "name_index", "referent_index", "rel_symbol",
+                                "other_modules"],
     "wf_cache_I1": _EFFECT + _CACHE,
     "wf_cache_I2": _EFFECT + _CACHE,
 }
@@ -75,6 +80,8 @@ FOCUS = {
 def focus(clause):
     if clause in FOCUS:
         return FOCUS[clause]
+    if clause in ("callpre.distinct_uuids_in_subtree", "callpre.subtree_registered"):
+        return _EFFECT + _CACHE
     if clause in ("view", "parents", "parent", "other_collections", "other_parents", "target_ir_fixed"):
         return _EFFECT + ["rel_block", "rel_interval", "rel_section", "rel_symbol", "rel_proxy", "rel_module",
                           "wrappers_owned"]
